@@ -91,7 +91,8 @@ theorem deserializeChild_ref (h : Bytes) (w : Nat) (hh : h.length = 32) (hw : w 
     simp [be64_length, this]
   simp [s1, s2, s3]
 
-theorem deserializeChild_short (h h' k : Bytes) (w : Nat) (hh : h.length = 32) (hh' : h'.length = 32) (hw : w < 2 ^ 64) :
+theorem deserializeChild_short (h h' k : Bytes) (w : Nat) (hh : h.length = 32) (hh' : h'.length = 32) (hw : w < 2 ^ 64)
+    (hk : isNibbles k = true) :
     deserializeChild (h ++ be64 w ++ h' ++ k) = .ok (some (.short k h (.hashRef h' w) false false)) := by
   have hl : (h ++ be64 w ++ h' ++ k).length = 72 + k.length := by simp [hh, hh', be64_length]; omega
   have h40 : (h ++ be64 w).length = 40 := by simp [hh, be64_length]
@@ -122,7 +123,41 @@ theorem deserializeChild_short (h h' k : Bytes) (w : Nat) (hh : h.length = 32) (
   have s5 : sliceFrom (h ++ be64 w ++ h' ++ k) (40 + 32) = .ok k := by
     unfold sliceFrom
     rw [if_pos (by rw [hl]; omega), show 40 + 32 = 72 from rfl, List.drop_left' h72]
-  simp only [s1, s2, s3, s4, s5]
+  simp only [s1, s2, s3, s4, s5, hk, Bool.not_true, Bool.false_eq_true, if_false]
+
+/-- the keys of all short nodes are nibble lists (what `DeserializeNode` insists on since fix f270208) -/
+def KeysNib : PT → Prop
+  | .none => True
+  | .value _ _ => True
+  | .short k c => isNibbles k = true ∧ KeysNib c
+  | .branch ch => ∀ i, KeysNib (ch i)
+
+theorem isNibbles_iff {k : Bytes} : isNibbles k = true ↔ ∀ b ∈ k, b.toNat < 16 := by
+  simp [isNibbles, List.all_eq_true]
+
+theorem isNibbles_nil : isNibbles [] = true := rfl
+
+theorem isNibbles_append {a b : Bytes} : isNibbles (a ++ b) = (isNibbles a && isNibbles b) := by
+  simp [isNibbles, List.all_append]
+
+theorem isNibbles_cons {x : UInt8} {a : Bytes} : isNibbles (x :: a) = (decide (x.toNat < 16) && isNibbles a) := by
+  simp [isNibbles]
+
+theorem isNibbles_take {a : Bytes} (n : Nat) (h : isNibbles a = true) : isNibbles (a.take n) = true :=
+  isNibbles_iff.mpr fun b hb => isNibbles_iff.mp h b (List.mem_of_mem_take hb)
+
+theorem isNibbles_drop {a : Bytes} (n : Nat) (h : isNibbles a = true) : isNibbles (a.drop n) = true :=
+  isNibbles_iff.mpr fun b hb => isNibbles_iff.mp h b (List.mem_of_mem_drop hb)
+
+theorem nb_toNat (i : Nib) : (nb i).toNat = i.val := by
+  have : i.val < 256 := by omega
+  simp [nb, Nat.mod_eq_of_lt this]
+
+theorem isNibbles_map_nb (ks : List Nib) : isNibbles (ks.map nb) = true := by
+  apply isNibbles_iff.mpr
+  intro b hb
+  obtain ⟨i, _, rfl⟩ := List.mem_map.mp hb
+  rw [nb_toNat]; exact i.isLt
 
 theorem PT.hash_length (H : Bytes → Bytes) (hlen : ∀ x, (H x).length = 32) (t : PT) : (t.hash H).length = 32 := by
   cases t <;> simp [PT.hash, emptyHash, hlen]
@@ -146,7 +181,8 @@ theorem PT.refOf_isNil (H : Bytes → Bytes) (c : PT) : (PT.refOf H c).isNil = c
 theorem PT.calcHash_refOf (H : Bytes → Bytes) (c : PT) : (calcHash H (PT.refOf H c)).2 = c.hash H := by
   cases c <;> simp [PT.refOf, calcHash, PT.hash]
 
-theorem deserializeChild_childEntry (H : Bytes → Bytes) (hlen : ∀ x, (H x).length = 32) (c : PT) (hw : c.weight < 2 ^ 64) :
+theorem deserializeChild_childEntry (H : Bytes → Bytes) (hlen : ∀ x, (H x).length = 32) (c : PT) (hw : c.weight < 2 ^ 64)
+    (hk : KeysNib c) :
     deserializeChild (PT.childEntry H c) = .ok (if c.isNone then none else some (PT.refOf H c)) := by
   cases c with
   | none => simp [PT.childEntry, deserializeChild, PT.isNone, hashWithWeightLength]
@@ -159,15 +195,16 @@ theorem deserializeChild_childEntry (H : Bytes → Bytes) (hlen : ∀ x, (H x).l
   | short k c' =>
     simp only [PT.childEntry, PT.isNone, Bool.false_eq_true, if_false, PT.refOf]
     exact deserializeChild_short _ _ _ _ (PT.hash_length H hlen _) (PT.hash_length H hlen _) (by simpa [PT.weight] using hw)
+      hk.1
 
 theorem deserializeChildren_map (H : Bytes → Bytes) (hlen : ∀ x, (H x).length = 32) (cs : List PT)
-    (hw : ∀ c ∈ cs, c.weight < 2 ^ 64) :
+    (hw : ∀ c ∈ cs, c.weight < 2 ^ 64) (hk : ∀ c ∈ cs, KeysNib c) :
     deserializeChildren (cs.map (PT.childEntry H)) = .ok (cs.map (PT.refOf H), (cs.map PT.weight).sum) := by
   induction cs with
   | nil => rfl
   | cons c tl ih =>
-    have hc := deserializeChild_childEntry H hlen c (hw c List.mem_cons_self)
-    have ht := ih (fun x hx => hw x (List.mem_cons_of_mem _ hx))
+    have hc := deserializeChild_childEntry H hlen c (hw c List.mem_cons_self) (hk c List.mem_cons_self)
+    have ht := ih (fun x hx => hw x (List.mem_cons_of_mem _ hx)) (fun x hx => hk x (List.mem_cons_of_mem _ hx))
     simp only [List.map_cons, deserializeChildren, hc, ht, List.sum_cons]
     cases c <;> simp [PT.isNone, PT.refOf, WN.weight, PT.weight]
 
@@ -193,14 +230,18 @@ theorem PT.weight_child_le (ch : Nib → PT) (i : Nib) : (ch i).weight ≤ (PT.b
   exact nat_mem_le_sum _ _ this
 
 theorem deserializeNode_branch (H : Bytes → Bytes) (hlen : ∀ x, (H x).length = 32) (ch : Nib → PT)
-    (hw : (PT.branch ch).weight < 2 ^ 64) :
+    (hw : (PT.branch ch).weight < 2 ^ 64) (hk : KeysNib (.branch ch)) :
     deserializeNode (PT.persist H (.branch ch)) =
       .ok (.routing (PT.hash H (.branch ch)) (fun i => PT.refOf H (ch i)) (PT.branch ch).weight false false) := by
   have hws : ∀ c ∈ allNib.map ch, c.weight < 2 ^ 64 := by
     intro c hc
     obtain ⟨i, _, rfl⟩ := List.mem_map.mp hc
     exact Nat.lt_of_le_of_lt (PT.weight_child_le ch i) hw
-  have hd := deserializeChildren_map H hlen (allNib.map ch) hws
+  have hks : ∀ c ∈ allNib.map ch, KeysNib c := by
+    intro c hc
+    obtain ⟨i, _, rfl⟩ := List.mem_map.mp hc
+    exact hk i
+  have hd := deserializeChildren_map H hlen (allNib.map ch) hws hks
   simp only [List.map_map] at hd
   have hl : ¬ (allNib.map (fun i => PT.childEntry H (ch i))).length > branchNodeLength := by
     simp [allNib, branchNodeLength]
@@ -212,12 +253,13 @@ theorem deserializeNode_branch (H : Bytes → Bytes) (hlen : ∀ x, (H x).length
   rw [e2, e3, u64, Nat.mod_eq_of_lt hw]
 
 theorem deserializeNode_short (H : Bytes → Bytes) (hlen : ∀ x, (H x).length = 32) (k : Bytes) (c : PT)
-    (hw : c.weight < 2 ^ 64) :
+    (hw : c.weight < 2 ^ 64) (hk : isNibbles k = true) :
     deserializeNode (PT.persist H (.short k c)) =
       .ok (.short k (PT.hash H (.short k c)) (.hashRef (PT.hash H c) c.weight) false false) := by
   have hh := PT.hash_length H hlen c
   have hl : (pad32 (PT.hash H c) ++ be64 c.weight).length = 40 := by simp [pad32_of_length _ hh, hh, be64_length]
-  simp only [deserializeNode, PT.persist, show hashWithWeightLength = 40 from rfl, hl, ne_eq, not_true_eq_false, if_false]
+  simp only [deserializeNode, PT.persist, show hashWithWeightLength = 40 from rfl, hl, ne_eq, not_true_eq_false, if_false,
+    hk, Bool.not_true, Bool.false_eq_true]
   rw [pad32_of_length _ hh]
   have s1 : slice (PT.hash H c ++ be64 c.weight) 0 32 = .ok (PT.hash H c) := by
     unfold slice
@@ -253,7 +295,7 @@ theorem PT.pick_some_of_le (ch : Nib → PT) (is : List Nib) (b : Nat) (hb1 : 1 
 /-- the honest proof verifies: the verifier rebuilds a node whose hash is the hash of the trie and returns the value
     of the leaf the weight-ordered descent reaches -/
 theorem verify_honest (H : Bytes → Bytes) (hlen : ∀ x, (H x).length = 32) (t : PT) (b : Nat) (tail : List PairD)
-    (hb1 : 1 ≤ b) (hb : b ≤ t.weight) (hw : t.weight < 2 ^ 64) :
+    (hb1 : 1 ≤ b) (hb : b ≤ t.weight) (hw : t.weight < 2 ^ 64) (hkn : KeysNib t) :
     ∃ n k v, t.owner b = some (k, v) ∧
       verifyProof H ((t.proofPairs H b).map PairD.ok ++ tail) b = .ok (n, v, tail) ∧
       (calcHash H n).2 = t.hash H ∧ n.hashField H = t.hash H ∧ n.isNil = false := by
@@ -267,7 +309,7 @@ theorem verify_honest (H : Bytes → Bytes) (hlen : ∀ x, (H x).length = 32) (t
     · simp [calcHash, PT.hash]
   | short k c ih =>
     simp only [PT.weight] at hb hw
-    obtain ⟨n', k', v, ho, hv, hc, _, hnil⟩ := ih b tail hb1 hb hw
+    obtain ⟨n', k', v, ho, hv, hc, _, hnil⟩ := ih b tail hb1 hb hw hkn.2
     have hnb : ¬ b > (WN.hashRef (PT.hash H c) c.weight).weight := by simp [WN.weight]; omega
     have hcn : (if n'.isNil = true then (WN.short k (H k) WN.nil true false, H k)
         else (WN.short k (H (k ++ (calcHash H n').2)) (calcHash H n').1 true false, H (k ++ (calcHash H n').2))) =
@@ -276,7 +318,7 @@ theorem verify_honest (H : Bytes → Bytes) (hlen : ∀ x, (H x).length = 32) (t
     refine ⟨rehash H (.short k (PT.hash H (.short k c)) n' true false), k ++ k', v, ?_, ?_, ?_, ?_, ?_⟩
     · have : ¬ b > c.weight := by omega
       simp [PT.owner, this, ho]
-    · simp only [PT.proofPairs, List.map_cons, List.cons_append, verifyProof, deserializeNode_short H hlen k c hw, hnb,
+    · simp only [PT.proofPairs, List.map_cons, List.cons_append, verifyProof, deserializeNode_short H hlen k c hw hkn.1, hnb,
         if_false, hv]
     · simp only [rehash, calcHash, if_true, hcn]
       have h2 := calcHash_idem H n'
@@ -288,7 +330,7 @@ theorem verify_honest (H : Bytes → Bytes) (hlen : ∀ x, (H x).length = 32) (t
     have hsum : b ≤ (allNib.map (fun i => (ch i).weight)).sum := hb
     obtain ⟨i, b', hp, hb1', hb'⟩ := PT.pick_some_of_le ch allNib b hb1 hsum
     have hwi : (ch i).weight < 2 ^ 64 := Nat.lt_of_le_of_lt (PT.weight_child_le ch i) hw
-    obtain ⟨n', k', v, ho, hv, hc, _, hnil⟩ := ih i b' tail hb1' hb' hwi
+    obtain ⟨n', k', v, ho, hv, hc, _, hnil⟩ := ih i b' tail hb1' hb' hwi (hkn i)
     have hpc : pickChild (fun i => PT.refOf H (ch i)) allNib b = some (i, b') := by rw [pickChild_refOf]; exact hp
     -- the children hashes the rebuilt branch is hashed from are the true ones
     have hkids : allNib.flatMap (fun j => (calcHash H (upd (fun i => PT.refOf H (ch i)) i n' j)).2) =
@@ -303,7 +345,7 @@ theorem verify_honest (H : Bytes → Bytes) (hlen : ∀ x, (H x).length = 32) (t
     refine ⟨rehash H (.routing (PT.hash H (.branch ch)) (upd (fun i => PT.refOf H (ch i)) i n') (PT.branch ch).weight true false),
       nb i :: k', v, ?_, ?_, ?_, ?_, ?_⟩
     · simp [PT.owner, hp, ho]
-    · simp only [PT.proofPairs, hp, List.map_cons, List.cons_append, verifyProof, deserializeNode_branch H hlen ch hw,
+    · simp only [PT.proofPairs, hp, List.map_cons, List.cons_append, verifyProof, deserializeNode_branch H hlen ch hw hkn,
         hpc, hv]
     · have : (calcHash H (rehash H (.routing (PT.hash H (.branch ch)) (upd (fun i => PT.refOf H (ch i)) i n') (PT.branch ch).weight true false))).2
           = (calcHash H (.routing (PT.hash H (.branch ch)) (upd (fun i => PT.refOf H (ch i)) i n') (PT.branch ch).weight true false)).2 := by
